@@ -147,6 +147,22 @@ def attempt(b, d, opts, stage_limit="import"):
         objs.append(o3)
     elif need_module:
         return None, [], "nodb: module pass impossible, compile only"
+    py_module = "-python" in opts and "-python-native" not in opts and "-c" not in opts and "-nodb" not in opts \
+        and "-do-module" not in opts
+    if py_module:
+        # the simple Python back-end: interrogate_module builds the method table from the wrappers the database
+        # says are callable by name
+        mod = os.path.join(d, "mod_module.cxx")
+        rm = tools.interrogate_module(b, [p["od"]], mod, module="mod", library="mod", opts=["-python"])
+        if rm.died() or rm.timed_out:
+            return "module-tool-crash", [rm.how()], rm.err[-1500:]
+        if rm.rc != 0:
+            return "tool-rejected", [], rm.err[-300:]
+        o3 = os.path.join(d, "module.o")
+        rc = genbuild.compile_obj(b, mod, o3, dirs=dirs, python=True)
+        if rc.rc != 0:
+            return "module-compile-error", error_classes(rc.err) or ["?"], rc.err[:3000]
+        objs.append(o3)
     so = os.path.join(d, "mod.so")
     idb = b.libs("interrogatedb", "dtoolutil", "dtoolbase")
     plain = core.build("plain")
@@ -154,7 +170,7 @@ def attempt(b, d, opts, stage_limit="import"):
     rl = genbuild.link_shared(objs, so, extra=["-Wl,--no-undefined"] + idb + (libbuild.libpython() if python else []))
     if rl.rc != 0:
         return "link-error", error_classes(rl.err) or ["?"], rl.err[:3000]
-    if "-python-native" in opts:
+    if "-python-native" in opts or py_module:
         ri = core.run(["python3", "-c", "import sys; sys.path.insert(0, %r); import mod; print('IMPORTED', len(dir(mod)))" % d],
                       timeout=60)
         if "IMPORTED" not in ri.out:
